@@ -24,7 +24,7 @@ from hsim.worlds.http import FlowRecord, HttpWorld
 
 PROPERTY = "C17"
 CHUNK = {"quick": 10, "thorough": 24}
-PROBES = ["reentrant_injection_in_same_response", "replay_served", "replay_served_twice_in_a_row", "swallow_all_gives_undef", "injection_across_non_200",
+PROBES = ["announcement_names_a_torn_down_region", "reentrant_injection_in_same_response", "replay_served", "replay_served_twice_in_a_row", "swallow_all_gives_undef", "injection_across_non_200",
           "injection_while_replay_served", "teardown_with_pending_injection", "hook_raised", "region_announced",
           "region_announced_twice", "announcement_swallowed", "inject_message_templated", "empty_events_with_injection",
           "lost_undef_response", "two_regions_polling", "origin_undef"]
@@ -87,8 +87,13 @@ def gen_plan(rng: random.Random, tier: str) -> dict:
                         kind = rng.choice(ANNOUNCERS)
                     elif z < 0.4:
                         kind = "templated"
-                    events.append({"n": ev_no, "kind": kind, "addr": rng.randrange(4),
+                    events.append({"n": ev_no, "kind": kind, "addr": rng.randrange(4) if rng.random() < 0.75
+                                   else 4 + rng.randrange(n_regions),    # >= 4: a region the viewer already polls
                                    "swallow": rng.random() < p_swallow, "raise": rng.random() < 0.1})
+                    if events[-1]["addr"] >= 4 and kind == "EnableSimulator":
+                        # (EnableSimulator has no field left to carry the harness's event number once IP, port and
+                        #  handle are the real ones)
+                        events[-1]["kind"] = "EstablishAgentCommunication"
                     if events[-1]["swallow"] and rng.random() < p_replace:
                         # the addon swallows the event and injects a rewritten one in its place, from inside the hook
                         events[-1]["replace"] = True
@@ -238,29 +243,36 @@ def run_plan(plan: dict) -> RunResult:
         region_objs = list(session.regions)
 
         # ---- building events ----------------------------------------------------------------------
+        def ann_of(e: dict):
+            """(address, handle, seed url, EnableSimulator port) an announcing event names."""
+            if e["addr"] >= 4:
+                sp = specs[(e["addr"] - 4) % len(specs)]
+                return tuple(sp["addr"]), sp["handle"], sp["seed"], sp["addr"][1]
+            a = ann_addr(e["addr"])
+            return a, (7000 + e["addr"]) << 32, f"https://ann{e['addr']}.example.invalid/cap/seed", 20000 + e["n"]
+
         def build_event(e: dict) -> dict:
             n, kind = e["n"], e["kind"]
-            addr = ann_addr(e["addr"])
+            addr, handle_, seed_, en_port = ann_of(e)
             if kind == "plain":
                 return {"message": "HsimPlainEvent", "body": {"n": n, "text": f"e{n}"}}
             if kind == "EstablishAgentCommunication":
                 return {"message": kind, "body": {"hsim-n": n, "agent-id": UUID(int=9),
                                                   "sim-ip-and-port": f"{addr[0]}:{addr[1]}",
-                                                  "seed-capability": f"https://ann{e['addr']}.example.invalid/cap/seed"}}
+                                                  "seed-capability": seed_}}
             if kind == "EnableSimulator":
-                m = Message("EnableSimulator", Block("SimulatorInfo", Handle=(7000 + e["addr"]) << 32, IP=addr[0],
-                                                     Port=20000 + n))
+                m = Message("EnableSimulator", Block("SimulatorInfo", Handle=handle_, IP=addr[0], Port=en_port))
                 return lser.serialize(m, True)
             if kind in ("TeleportFinish", "CrossedRegion"):
                 if kind == "TeleportFinish":
                     m = Message("TeleportFinish", Block("Info", AgentID=UUID(int=9), LocationID=n, SimIP=addr[0],
-                                                        SimPort=addr[1], RegionHandle=(7000 + e["addr"]) << 32,
-                                                        SeedCapability=f"https://ann{e['addr']}.example.invalid/cap/seed",
+                                                        SimPort=addr[1], RegionHandle=handle_,
+                                                        SeedCapability=seed_,
                                                         SimAccess=13, TeleportFlags=0))
                     return lser.serialize(m, True)
                 m = Message("CrossedRegion", Block("AgentData", AgentID=UUID(int=9), SessionID=UUID(int=8)),
-                            Block("RegionData", SimIP=addr[0], SimPort=addr[1], RegionHandle=(7000 + e["addr"]) << 32,
-                                  SeedCapability=f"https://ann{e['addr']}.example.invalid/cap/seed"),
+                            Block("RegionData", SimIP=addr[0], SimPort=addr[1], RegionHandle=handle_,
+                                  SeedCapability=seed_),
                             Block("Info", Position=(float(n), 2.0, 3.0), LookAt=(1.0, 0.0, 0.0)))
                 return lser.serialize(m, True)
             # templated, not region-announcing
@@ -373,12 +385,14 @@ def run_plan(plan: dict) -> RunResult:
         expected_replay: Dict[str, bool] = {}
         announced: List[tuple] = []
         had_non200_with_pending = [False] * nreg
+        torn = set()
         for entry in world.main_log:
             if stopped:
                 break
             if entry["what"] == "inject":
                 pending[entry["r"]].append(entry["event"])
             elif entry["what"] == "teardown":
+                torn.add(entry["r"])
                 if pending[entry["r"]]:
                     res.probe("teardown_with_pending_injection")
                 pending[entry["r"]] = []
@@ -416,9 +430,13 @@ def run_plan(plan: dict) -> RunResult:
                             if swallowed:
                                 res.probe("announcement_swallowed")
                             else:
-                                a = ann_addr(e_spec["addr"])
+                                a, _h, _s, en_port_ = ann_of(e_spec)
                                 if e_spec["kind"] == "EnableSimulator":
-                                    a = (a[0], 20000 + e_spec["n"])
+                                    a = (a[0], en_port_)
+                                if e_spec["addr"] >= 4:
+                                    res.probe("announcement_names_a_region_already_polled")
+                                    if (e_spec["addr"] - 4) % len(specs) in torn:
+                                        res.probe("announcement_names_a_torn_down_region")
                                 if a in announced:
                                     res.probe("region_announced_twice")
                                 announced.append(a)
